@@ -39,8 +39,12 @@ def pc_setup(ctx):
     }
     self.attrs["_default_env"] = default_env
     self.methods["error"] = lambda c, s_, a, k: (_ for _ in ()).throw(PyRaise(ExcVal("ArgumentError", origin="self.error")))
-    env = {"self": self, "cfg": the_cfg, "skip_subcommands": False, "env": env_arg, "defaults": True, "with_meta": with_meta, "skip_validation": skip_validation, "skip_required": False, "fail_no_subcommand": True}
-    return Setup(env=env, calls=calls, cms={"parser_context": noop_cm("parser_context")}, data=dict(env_arg=env_arg, default_env=default_env, cfg=the_cfg, stripped=stripped, skip_validation=skip_validation, keep_meta=(with_meta is True or (with_meta is None and default_meta))))
+    defaults = ctx.choose(2, "defaults") == 1
+    skip_subcommands = ctx.choose(2, "skip_subcommands") == 1
+    fail_no = z3.Bool("fail_no_subcommand")
+    skip_required = z3.Bool("skip_required")
+    env = {"self": self, "cfg": the_cfg, "skip_subcommands": skip_subcommands, "env": env_arg, "defaults": defaults, "with_meta": with_meta, "skip_validation": skip_validation, "skip_required": skip_required, "fail_no_subcommand": fail_no}
+    return Setup(env=env, calls=calls, cms={"parser_context": noop_cm("parser_context")}, data=dict(defaults=defaults, skip_subcommands=skip_subcommands, fail_no=fail_no, skip_required=skip_required, self_=self, env_arg=env_arg, default_env=default_env, cfg=the_cfg, stripped=stripped, skip_validation=skip_validation, keep_meta=(with_meta is True or (with_meta is None and default_meta))))
 
 
 def pc_post(ctx, st, result):
@@ -53,9 +57,21 @@ def pc_post(ctx, st, result):
     ctx.oblige("post", "returns-that-configuration(meta stripped unless asked to keep it)", result is (d["cfg"] if d["keep_meta"] else d["stripped"]))
     hs = [e for e in ctx.events if e[0] == "handle_subcommands"]
     want_env = True if (d["env_arg"] is None and d["default_env"]) else d["env_arg"]
-    ctx.oblige("post", "subcommand-settings-are-completed-with-the-environment-exactly-when-it-is-enabled(argument, else the parser's default_env)", len(hs) == 1 and hs[0][1] is d["cfg"] and hs[0][2].get("env") is want_env and hs[0][2].get("defaults") is True)
+    if d["skip_subcommands"]:
+        ctx.oblige("post", "skip_subcommands=>subcommands-are-left-alone", not hs)
+    else:
+        ctx.oblige("post", "subcommand-settings-are-completed-with-the-environment-exactly-when-it-is-enabled(argument, else the parser's default_env)", len(hs) == 1 and hs[0][1] is d["cfg"] and hs[0][2].get("env") is want_env
+                   and hs[0][2].get("defaults") is d["defaults"] and hs[0][2].get("fail_no_subcommand") is d["fail_no"])
     order = [e[0] for e in ctx.events if e[0] in ("apply_links", "validate")]
     ctx.oblige("post", "links-are-applied-before-validation", order in (["apply_links", "validate"], ["apply_links"]))
+    sd = [e for e in ctx.events if e[0] == "sub_defaults"]
+    ctx.oblige("post", "defaults-of-selected-classes-are-added-exactly-when-defaults-are-asked-for", len(sd) == (1 if d["defaults"] else 0) and all(e[1] is d["cfg"] for e in sd))
+    pc = [e for e in ctx.events if e[0] == "print_config?"]
+    seq = [e[0] for e in ctx.events if e[0] in ("handle_subcommands", "sub_defaults", "print_config?", "apply_links", "validate")]
+    ctx.oblige("post", "a-pending---print_config-request-is-served-once,on-this-configuration,after-subcommands-and-defaults-are-completed-and-before-links-and-validation", len(pc) == 1 and pc[0][1] is d["cfg"]
+               and seq.index("print_config?") == len([x for x in seq if x in ("handle_subcommands", "sub_defaults")]))
+    if vals:
+        ctx.oblige("post", "validation-gets-the-caller's-skip_required", vals[0][2].get("skip_required") is d["skip_required"])
 
 
 def pc_raises(ctx, st, exc):
